@@ -16,17 +16,22 @@ import NurbsVerif.Lemmas.Hodograph
 import NurbsVerif.Lemmas.HodographTangent
 import NurbsVerif.Lemmas.HodographSurfAll
 import NurbsVerif.Lemmas.HodographWitness
+import NurbsVerif.Lemmas.RatCurveTrue
+import NurbsVerif.Lemmas.RatSurfTrue
 
 /-!
 # C02  Derivatives returned are the true derivatives of the shape  (statements so far)
 
-Curves: every order (`curve_derivatives_are_true_derivatives`), A4.2 (`rational_curve_derivatives_leibniz`).
+Curves: every order (`curve_derivatives_are_true_derivatives`), A4.2 (`rational_curve_derivatives_leibniz` for an
+arbitrary table; end to end for a NURBS curve with positive weights, through the span search, on the closed domain:
+`rational_curve_derivatives_leibniz_of_true_derivatives`, at a given span `…_at_span`).
 Basis table: `basis_derivative_table_is_true_derivative`; A2.3 transcribed statement by statement returns that
 table (`a23_as_coded_is_the_derivative_table`, `a23_divisors_positive`), A3.2 over it is the true derivative
 (`a32_with_a23_is_true_derivative`).
 Surfaces: every mixed order (`surface_derivatives_are_true_mixed_derivatives`; the bivariate span polynomial
 lives in Mathlib's `F[X][Y]`, inner indeterminate = `u`, outer = `v`), A4.4
-(`rational_surface_derivatives_leibniz`, `…_of_true_derivatives`, uniqueness of the solution).
+(`rational_surface_derivatives_leibniz`, `…_of_true_derivatives` at a given span pair, `…_on_domain` through the span
+search with positive weights, uniqueness of the solution).
 Normal / normalisation: `normal_orthogonal_to_tangents`, `normalized_vector_has_unit_length`.
 Evaluators as coded (loop by loop; models of `Model/SurfDersLoops.lean`, each compared with the real function by its
 own stream): A3.2 `a32_as_coded_is_true_derivative`; A3.6 `a36_as_coded_is_the_tensor_formula`,
@@ -77,6 +82,38 @@ theorem rational_curve_derivatives_leibniz (CKw : List (List F)) (d : ℕ) (hrow
     ∑ i ∈ Finset.range (k+1), (Nat.choose k i : F) * (CKw.getD i []).getD d 0 * ((ratCurveDers CKw).getD (k - i) []).getD j 0
       = (CKw.getD k []).getD j 0 :=
   ratCurveDers_leibniz CKw d hrows hw k j hk hj
+
+/-- **Rational curves at a given span, data = true derivatives**: A4.2 applied to the derivative table
+    `curveDersAt` of the homogeneous curve (net of `d+1` coordinates, the last one the weight) – the row-length
+    hypothesis of the theorem above is discharged from `NetOk`, the data of the Leibniz system are the true derivatives
+    of the weight polynomial `w = spanPoly … d` and of the numerator coordinate `A_j = spanPoly … j`; the only
+    remaining hypothesis is `w(u) ≠ 0`. -/
+theorem rational_curve_derivatives_leibniz_at_span (p : ℕ) (U : ℕ → F) (Pw : List (List F)) (κ : ℕ) (u : F)
+    (d order k j : ℕ) (hp : p ≤ κ) (hκ : κ < Pw.length) (hP : NetOk (d+1) Pw) (hm : Monotone U)
+    (hspan : U κ < U (κ+1)) (hw0 : eval u (spanPoly p U Pw κ d) ≠ 0) (hk : k ≤ order) (hj : j < d) :
+    ∑ i ∈ Finset.range (k+1), (Nat.choose k i : F) * eval u (derivative^[i] (spanPoly p U Pw κ d))
+        * ((ratCurveDers (curveDersAt p U Pw κ u order)).getD (k - i) []).getD j 0
+      = eval u (derivative^[k] (spanPoly p U Pw κ j)) :=
+  ratCurveDersAt_true p U Pw κ u d order k j hp hκ hP hm hspan hw0 hk hj
+
+/-- **Rational curves end to end**: for a well-formed NURBS curve (`CurveWF`: sorted knots, `len(U) = n+p+1`,
+    homogeneous control points of `d+1` coordinates, non-degenerate last span) with positive weights and EVERY
+    parameter of the closed domain `[U_p, U_n]`, with `κ` the span `find_span_linear` returns: the weight polynomial
+    of that span is positive at `u`, and the vectors `C⁽⁰⁾ … C⁽ᵒʳᵈᵉʳ⁾` that `Curve.derivatives(u, order)` returns
+    (model: A4.2 applied to `curveDers`, the homogeneous derivatives computed on the span found) solve the Leibniz
+    system `Σ_i C(k,i) · w⁽ⁱ⁾(u) · C⁽ᵏ⁻ⁱ⁾ = A_j⁽ᵏ⁾(u)` whose data are the true derivatives of the span polynomials.
+    By uniqueness of the solution (`w(u) ≠ 0`) they are the derivatives of the quotient `A_j / w`; at a knot, from
+    the right; at the right end `u = U_n` (span `n-1`, closed on the right), from the left.  No hypothesis on the
+    table (row lengths, weight) is left: both follow from well-formedness and C01's weight positivity. -/
+theorem rational_curve_derivatives_leibniz_of_true_derivatives (p d : ℕ) (Ul : List F) (Pw : List (List F))
+    (hC : CurveWF p (d+1) Ul Pw) (hwt : ∀ i, i < Pw.length → 0 < (ptsGet Pw i).getD d 0) (u : F)
+    (h1 : fnOf Ul p ≤ u) (h2 : u ≤ fnOf Ul Pw.length) (order k j : ℕ) (hk : k ≤ order) (hj : j < d) :
+    0 < eval u (spanPoly p (fnOf Ul) Pw (findSpanLinear p (fnOf Ul) Pw.length u) d) ∧
+    ∑ i ∈ Finset.range (k+1), (Nat.choose k i : F)
+        * eval u (derivative^[i] (spanPoly p (fnOf Ul) Pw (findSpanLinear p (fnOf Ul) Pw.length u) d))
+        * ((ratCurveDers (curveDers p (fnOf Ul) Pw u order)).getD (k - i) []).getD j 0
+      = eval u (derivative^[k] (spanPoly p (fnOf Ul) Pw (findSpanLinear p (fnOf Ul) Pw.length u) j)) :=
+  ratCurveDers_domain p d Ul Pw hC hwt u h1 h2 order k j hk hj
 
 
 /-! ### the derivative table of the basis functions -/
@@ -242,10 +279,33 @@ theorem rational_surface_derivatives_leibniz_of_true_derivatives (pu pv : ℕ) (
   ratSurfaceDers_true pu pv Uu Uv su sv P κu κv u v d c order k l hpu hpv hκu hκv hlen hP hmu hmv hspu hspv
     hw0 hk hl hc
 
+/-- **Rational surfaces end to end, through the span search**: sorted knot vectors with non-degenerate last spans
+    (`KnotsOk`), homogeneous net of `su·sv` points with `d+1` coordinates and positive weights, every `(u, v)` of the
+    closed domain, spans as `find_span_linear` returns them: the weight polynomial is positive at `(u, v)` (so the
+    hypothesis `hw0` of the theorem above is discharged) and the returned vectors solve the Leibniz system of the true
+    mixed partial derivatives. -/
+theorem rational_surface_derivatives_leibniz_on_domain (pu pv : ℕ) (Uu Uv : ℕ → F) (su sv : ℕ)
+    (Pw : List (List F)) (u v : F) (d c order k l : ℕ)
+    (hUu : KnotsOk pu Uu su) (hUv : KnotsOk pv Uv sv) (hlen : Pw.length = su * sv) (hP : NetOk (d+1) Pw)
+    (hwt : ∀ i, i < Pw.length → 0 < (ptsGet Pw i).getD d 0)
+    (hu1 : Uu pu ≤ u) (hu2 : u ≤ Uu su) (hv1 : Uv pv ≤ v) (hv2 : v ≤ Uv sv)
+    (hk : k ≤ order) (hl : l ≤ order) (hc : c < d) :
+    0 < (surfSpanPoly pu pv Uu Uv sv Pw (findSpanLinear pu Uu su u) (findSpanLinear pv Uv sv v) d).evalEval u v ∧
+    ∑ i ∈ Finset.range (k+1), ∑ j ∈ Finset.range (l+1),
+      (Nat.choose k i : F) * (Nat.choose l j : F)
+        * (pderivU^[i] (pderivV^[j] (surfSpanPoly pu pv Uu Uv sv Pw (findSpanLinear pu Uu su u)
+            (findSpanLinear pv Uv sv v) d))).evalEval u v
+        * ((((ratSurfaceDers (surfaceDersAt pu pv Uu Uv sv Pw (findSpanLinear pu Uu su u)
+            (findSpanLinear pv Uv sv v) u v order false) order).getD (k - i) []).getD (l - j) []).getD c 0)
+      = (pderivU^[k] (pderivV^[l] (surfSpanPoly pu pv Uu Uv sv Pw (findSpanLinear pu Uu su u)
+            (findSpanLinear pv Uv sv v) c))).evalEval u v :=
+  ratSurfaceDers_domain pu pv Uu Uv su sv Pw u v d c order k l hUu hUv hlen hP hwt hu1 hu2 hv1 hv2 hk hl hc
+
 /-! ### normal vector and normalisation (`operations.normal`, `operations.tangent`) -/
 
 /-- `operations.normal` is `vector_cross(skl[1][0], skl[0][1])`: for a 3-D surface the cross product of
-    the two first partial derivative vectors exists and is orthogonal to both of them. -/
+    the two first partial derivative vectors exists and is orthogonal to both of them.
+    (The orthogonality part holds for the cross product of ANY two 3-vectors; what is specific to the surface is only that the two derivative vectors have three coordinates, so the cross product exists.  That they are the true partial derivatives is `surface_derivatives_are_true_mixed_derivatives`.) -/
 theorem normal_orthogonal_to_tangents (pu pv : ℕ) (Uu Uv : ℕ → F) (su sv : ℕ) (P : List (List F))
     (κu κv : ℕ) (u v : F) (order : ℕ) (tri : Bool)
     (hpu : pu ≤ κu) (hpv : pv ≤ κv) (hκu : κu < su) (hκv : κv < sv) (hlen : P.length = su * sv) (hP : NetOk 3 P)
@@ -489,6 +549,21 @@ example :
   rational_surface_derivatives_leibniz_of_true_derivatives 2 1 exU exV 3 2 exP 2 1 (1/3) (1/2) 3 1 2 2 1
     (by omega) (by omega) (by omega) (by omega) rfl exP_ok exU_mono exV_mono (by decide +kernel) (by decide +kernel)
     ex_weight (by omega) (by omega) (by omega)
+
+/-- the rational CURVE end-to-end theorem, instantiated: clamped quadratic NURBS with an interior knot
+    (`rcU = [0,0,0,1/2,1,1,1]`), homogeneous points `rcPw` with weights `1, 2, 1/2, 3`, at the RIGHT END `u = 1` of the
+    domain (span 3, closed on the right), order 2, `k = 2`, coordinate 0 -/
+example :
+    0 < eval (1 : ℚ) (spanPoly 2 (fnOf rcU) rcPw (findSpanLinear 2 (fnOf rcU) rcPw.length 1) 2) ∧
+    ∑ i ∈ Finset.range (2+1), (Nat.choose 2 i : ℚ)
+        * eval 1 (derivative^[i] (spanPoly 2 (fnOf rcU) rcPw (findSpanLinear 2 (fnOf rcU) rcPw.length 1) 2))
+        * ((ratCurveDers (curveDers 2 (fnOf rcU) rcPw 1 2)).getD (2 - i) []).getD 0 0
+      = eval 1 (derivative^[2] (spanPoly 2 (fnOf rcU) rcPw (findSpanLinear 2 (fnOf rcU) rcPw.length 1) 0)) :=
+  rational_curve_derivatives_leibniz_of_true_derivatives 2 2 rcU rcPw rc_wf rc_weights 1
+    (by decide +kernel) (by decide +kernel) 2 2 0 (by omega) (by omega)
+/-- … the span found there is the last one and the returned second derivative is a non-zero vector -/
+example : findSpanLinear 2 (fnOf rcU) rcPw.length 1 = 3 ∧
+    (ratCurveDers (curveDers 2 (fnOf rcU) rcPw 1 2)).getD 2 [] = [-70/9, 2/9] := by decide +kernel
 
 /-- the basis table theorem, instantiated -/
 example : ((basisDers 2 exU 2 (1/3) 2).getD 1 []).getD 0 0 = eval (1/3) (derivative^[1] (basisSpanPoly 2 exU 2 0)) :=
